@@ -644,6 +644,36 @@ def r10(F, R):
         R.ok("C11-R10", "worker:first-draw-within-budget", site, "every path to the draw passes a test of the draw budget (%d test sites)" % len(tests))
 
 
+def r11(F, R):
+    R.rule("C11-R11", "a chain that has finished is not a failure of the controller: in the command loop the result of forwarding Pause / Resume to a chain (a send "
+                      "into its mailbox, which fails exactly when that chain is already done) is never propagated with `?` nor unwrapped - otherwise a pause() or "
+                      "resume() issued after the first chain finished makes the controller leave its loop with an error and cuts the remaining chains short")
+    from . import err as E
+    cl = C12.controller_loop(F)
+    if cl is None:
+        R.missing("C11-R11", "controller command loop")
+        return
+    n = 0
+    raw = F.bodies.get(cl.path) or cl      # as written: `chain.pause()` is one fallible call whose result the controller deals with
+    for bb, t in raw.calls():
+        p_ = strip_generics(t["callee"].get("path", ""))
+        if not (p_.endswith(("ChainProcess::pause", "ChainProcess::resume")) or C12._is_op(raw, t, "send:Pause") or C12._is_op(raw, t, "send:Resume")):
+            continue
+        cl = raw
+        n += 1
+        site = "%s @%s" % (cl.path, loc(t["span"]))
+        key = "controller:forward#%d" % n
+        outs = E.classify(cl, t["dest"]["l"]) if not t["dest"]["p"] else []
+        kinds = sorted({o.kind for o in outs})
+        if any(k in ("propagated", "returned", "panics") for k in kinds):
+            R.bad("C11-R11", key, site, "the result of a mailbox send to a chain is %s: a finished chain (receiver gone) takes the controller down" % "/".join(kinds))
+        else:
+            R.ok("C11-R11", key, site, "mailbox send result: %s" % ("/".join(kinds) or "not a plain local"))
+    if n == 0:
+        R.missing("C11-R11", "mailbox sends (Pause / Resume) in the controller loop")
+    R.floor("C11-R11", 2)
+
+
 def r9(F, R):
     R.rule("C11-R9", "the controller only waits where it can be woken: inside its command loop (helpers and closures included) the only blocking operations are the "
                      "bounded recv_timeout on the command channel, the rendezvous send of a response and mutex locks - no unbounded Receiver::recv, join, "
@@ -691,6 +721,12 @@ def run(F, R, config=None):
         r8(F, R)
         r9(F, R)
         r10(F, R)
+        r11(F, R)
+        # "a run that is not aborted records exactly num_tune + num_draws draws per chain": a chain whose starting point was found on a later
+        # attempt must not report the earlier rejection as its result (C13-R3 analysis of the retry loop)
+        from . import c13
+        K.borrow_rule(R, lambda sub: c13.r3(F, sub), "C11-R12", "a chain that found a starting point runs: the retry loop leaves with the remembered error cleared, and "
+                      "Ok is returned only by a chain that was built and started (C13-R3 analysis)", only_rules={"C13-R3"})
         # a Resume that can be lost leaves a chain paused for ever: the run never terminates (C12-R6 analysis of the command channel)
         from . import c12
         K.borrow_rule(R, lambda sub: c12.r6(F, sub), "C11-R7", "no control command for a live chain can be dropped: unbounded mpsc channel, `send` (C12-R6 analysis); a lost Resume "
@@ -702,6 +738,6 @@ def run(F, R, config=None):
     R.assume("user callbacks (ProgressCallback) and Model/Math implementations return")
 
 
-FEATURE_RULES = {"C11-R3": "parallel", "C11-R4": "parallel", "C11-R5": "parallel", "C11-R7": "parallel", "C11-R8": "parallel", "C11-R9": "parallel", "C11-R10": "parallel"}
+FEATURE_RULES = {"C11-R3": "parallel", "C11-R4": "parallel", "C11-R5": "parallel", "C11-R7": "parallel", "C11-R8": "parallel", "C11-R9": "parallel", "C11-R10": "parallel", "C11-R11": "parallel", "C11-R12": "parallel"}
 CONFIGS = ["all", "default", "zarr", "ndarray"]
 SELFTEST = True
